@@ -77,6 +77,11 @@ pub struct Incarnation {
     pub new_ok: bool,
     pub wiped: bool,
     pub usable_before: bool,
+    /// identity (st_dev, st_ino) of what the segment path names: before this incarnation starts, once
+    /// `ShmWriter::new` has returned, and after the incarnation has ended (writer dropped / unwound)
+    pub ino_before: Option<(u64, u64)>,
+    pub ino_after_new: Option<(u64, u64)>,
+    pub ino_after_exit: Option<(u64, u64)>,
 }
 
 #[derive(Clone, Debug, Default)]
@@ -1076,7 +1081,7 @@ fn record_trace_inner(sc: &Scenario, dir: &Path) -> Result<Trace, String> {
             let begin = e.trace.len();
             e.crash_at = crash.map(|c| begin + c);
             let usable_before = e.trace.snap_at(begin).map(|s| reference_valid(s)).unwrap_or(false);
-            e.trace.incs.push(Incarnation { begin, end: begin, crashed: false, new_ok: false, wiped: false, usable_before });
+            e.trace.incs.push(Incarnation { begin, end: begin, crashed: false, new_ok: false, wiped: false, usable_before, ino_before: file_id(&path), ino_after_new: None, ino_after_exit: None });
             // a new process starts fully synchronised with memory
             let full = e.trace.mem.full_view_at(begin);
             e.wtv = TView::new(full);
@@ -1086,7 +1091,11 @@ fn record_trace_inner(sc: &Scenario, dir: &Path) -> Result<Trace, String> {
         let k0 = next_k;
         let r = std::panic::catch_unwind(std::panic::AssertUnwindSafe(|| -> Result<(), String> {
             let mut w = ShmWriter::new(&path).map_err(|e| format!("ShmWriter::new failed: {e}"))?;
-            with(|e| e.trace.incs.last_mut().unwrap().new_ok = true);
+            with(|e| {
+                let i = e.trace.incs.last_mut().unwrap();
+                i.new_ok = true;
+                i.ino_after_new = file_id(&path);
+            });
             for j in 0..*writes {
                 let k = k0 + j as i64;
                 let rec = record_for(sc.family, k);
@@ -1124,6 +1133,7 @@ fn record_trace_inner(sc: &Scenario, dir: &Path) -> Result<Trace, String> {
             let i = e.trace.incs.last_mut().unwrap();
             i.end = end;
             i.crashed = crashed;
+            i.ino_after_exit = file_id(&path);
             e.cur_span = None;
         });
         if crash.is_some() && !crashed {
